@@ -34,23 +34,54 @@ def block_xml(i, b, r):
     axes = ["1 0 0", "0 1 0", "0 0 1"][:size]
     j = "".join(f'<joint type="slide" axis="{a}"/>' for a in axes)
     return f'<body pos="{i} 0 1">{j}<geom type="sphere" size="0.1" mass="{r.uniform(0.5, 2):.3f}"/></body>'
-  def link(k, inner=""):
+  mix = b.get("mix", "hinge")
+  # dofs per body, front to back, summing to size
+  counts = []
+  rest = size
+  if mix == "free":
+    counts.append(6)
+    rest -= 6
+  per = {"ball": 3, "stacked": 2}.get(mix, 1)
+  while rest >= per and per > 1:
+    counts.append(per)
+    rest -= per
+  counts += [1] * rest
+
+  def joints(k, n):
     ax = ["0 1 0", "1 0 0", "0 0 1"][k % 3]
-    return (f'<body pos="0.15 0.02 -0.1"><joint type="hinge" axis="{ax}"{arm}/><geom type="capsule" fromto="0 0 0 0.15 0.02 -0.1" size="0.02" mass="{r.uniform(0.2, 1):.3f}"/>{inner}</body>')
+    if n == 6:
+      return "<freejoint/>"
+    if n == 3:
+      return f'<joint type="ball"{arm}/>'
+    if n == 2:
+      return f'<joint type="slide" axis="{ax}"{arm}/><joint type="hinge" axis="{["1 0 0", "0 0 1", "0 1 0"][k % 3]}"{arm}/>'
+    return f'<joint type="hinge" axis="{ax}"{arm}/>'
+
+  def link(k, inner=""):
+    return (f'<body pos="0.15 0.02 -0.1">{joints(k, counts[k])}<geom type="capsule" fromto="0 0 0 0.15 0.02 -0.1" size="0.02" mass="{r.uniform(0.2, 1):.3f}"/>{inner}</body>')
+
+  nb = len(counts)
   if kind == "tri":
     s = ""
-    for k in reversed(range(size)):
+    for k in reversed(range(nb)):
       s = link(k, s)
     return s.replace('pos="0.15 0.02 -0.1"', f'pos="{i} 0 1"', 1)
-  # other: a root with two serial branches (sizes split)
-  n1 = (size - 1) // 2
-  n2 = size - 1 - n1
-  def chain(n, off):
+  # other: a root with two serial branches (bodies split)
+  n1 = (nb - 1) // 2
+  n2 = nb - 1 - n1
+
+  def chain(idx):
     s = ""
-    for k in reversed(range(n)):
-      s = link(k + off, s)
+    for k in reversed(idx):
+      s = link(k, s)
     return s
-  root = link(0, chain(n1, 1) + chain(n2, 2).replace('pos="0.15 0.02 -0.1"', 'pos="-0.15 0.05 -0.1"', 1))
+
+  if n1 == 0 or n2 == 0:  # too few bodies to branch: a chain has the same size (the layout class of "other" does not need the branching for size > 6)
+    s = ""
+    for k in reversed(range(nb)):
+      s = link(k, s)
+    return s.replace('pos="0.15 0.02 -0.1"', f'pos="{i} 0 1"', 1)
+  root = link(0, chain(range(1, 1 + n1)) + chain(range(1 + n1, nb)).replace('pos="0.15 0.02 -0.1"', 'pos="-0.15 0.05 -0.1"', 1))
   return root.replace('pos="0.15 0.02 -0.1"', f'pos="{i} 0 1"', 1)
 
 
